@@ -2,6 +2,8 @@
 # allquick.sh <tier> <seed...>: runs every check at each seed; prints one line per (check, seed).
 tier=${1:-quick}; shift
 cd "$(dirname "$0")/.."
+# background sweeps run against a snapshot of /repo (vp run --with-repo) so that seeded patches applied to /repo meanwhile cannot leak in
+if [ -n "$VP_RUN_REPO" ]; then export VERIF_REPO="$VP_RUN_REPO"; echo "using repo snapshot $VERIF_REPO ($(git -C $VERIF_REPO rev-parse --short HEAD 2>/dev/null))"; fi
 for seed in "$@"; do
   for i in $(seq -w 1 20); do
     id=C$i
